@@ -190,15 +190,53 @@ class Comp(StandIn):
         return float(self.area)
 
 
+class Arr(StandIn):
+    """tiny stand-in for a numpy array of floats (1-d or 2-d): transpose, slicing, @, elementwise - and *"""
+
+    def __init__(self, data):
+        self.data = [list(r) if isinstance(r, (list, tuple)) else r for r in data]
+
+    @property
+    def T(self):
+        return Arr(list(zip(*self.data)))
+
+    def __iter__(self):
+        return iter(Arr(r) if isinstance(r, list) else r for r in self.data)
+
+    def __len__(self):
+        return len(self.data)
+
+    def __getitem__(self, i):
+        r = self.data[i]
+        return Arr(r) if isinstance(r, list) else r
+
+    def __matmul__(self, o):
+        return sum(a * b for a, b in zip(self.data, o.data))
+
+    def __sub__(self, o):
+        return Arr([a - b for a, b in zip(self.data, o.data)]) if isinstance(o, Arr) else Arr([a - o for a in self.data])
+
+    def __mul__(self, o):
+        return Arr([a * b for a, b in zip(self.data, o.data)]) if isinstance(o, Arr) else Arr([a * o for a in self.data])
+
+    def sum(self):
+        return sum(self.data)
+
+
 class Cur(StandIn):
-    def __init__(self, name, sign):
+    """boundary curve stand-in: orientation `sign`; the polygon through its nodes turns the *other* way or is
+    degenerate (a crescent, a lens of two arcs): only float(curve) tells the orientation"""
+    LOOPS = {1: ((0, 0), (0, 2), (3, 1), (0, 0)), -1: ((0, 0), (0, 2), (3, 1), (0, 0)), 0: ((0, 0), (2, 0), (0, 0))}
+
+    def __init__(self, name, sign, loop=None):
         self.name, self.sign = name, sign
+        self.loop = self.LOOPS[sign if loop is None else loop]
 
     def __float__(self):
         return float(self.sign)
 
     def points(self, n):
-        return ((0, 0), (1, 1))
+        return self.loop
 
 
 def plot_run(ctx, shape, kind):
@@ -219,7 +257,7 @@ def plot_run(ctx, shape, kind):
         if name == "PathPatch":
             return ("PP", args[0], kwargs.get("color", kwargs.get("facecolor")), kwargs.get("edgecolor"))
         if name == "array":
-            return Obj("arr", T=((0, 1), (0, 1)))
+            return Arr([tuple(map(float, p)) for p in args[0]])
         return NotImplemented
     Runner(ctx, set(), hook, asserts=True).call_fn(fn, [P, shape], {"kwargs": {}})
     return ax.calls
@@ -238,7 +276,7 @@ def r20_4(ctx):
         (out.ok if ok else out.bad)(fn.qname, "Whole only colours the background" if ok else f"Whole draws {calls}", where=fn.where())
         # disjoint shape mixing a bounded and an unbounded component; total area negative
         c1 = Comp("disk", 3.0, [Cur("jd", 1)])
-        c2 = Comp("plane_minus_square", -16.0, [Cur("jo", -1), Cur("ji", 1)])
+        c2 = Comp("plane_minus_square", -16.0, [Cur("jo", -1), Cur("ji", 1, loop=0)])
         D = Comp("D", -13.0, [])
         D.subshapes = (c1, c2)
         calls = plot_run(ctx, D, "DisjointShape")
